@@ -1131,6 +1131,9 @@ class Emitter:
                         s.ncount += 1
                         code.append('{ %s ll2c_hv%d; %s = ll2c_hv%d; }' % (decls[nm], s.ncount, nm, s.ncount))
                     code.append('__CPROVER_assume(%s);' % inv)
+                    for lm in lc.get('lemmas', []):
+                        # instance of a Lean-checked arithmetic lemma at the arbitrary loop state (lemma-based obligations, vf/lemma.py)
+                        code.append('__CPROVER_assume(%s);   /* lemma instance */' % lm)
                     code.append('#ifdef LL2C_CASE_EXPR')
                     code.append('__CPROVER_assume(LL2C_CASE_EXPR);   /* case split of the havocked state; the cases are enumerated by separate obligations */')
                     code.append('#endif')
@@ -1504,6 +1507,8 @@ class Emitter:
         for cn in order:
             if cn in pnames: continue
             body.append('  %s %s;' % (decls[cn], cn))
+        if contract is not None and contract.get('rec_variant'):
+            body.append('  ll2c_rec_measure = (unsigned __int128)(%s);   /* recursion variant at entry */' % contract['rec_variant'])
         body += ['  ' + c for c in code]
         body.append('}')
         return proto, '\n'.join(body), calls
@@ -1622,6 +1627,9 @@ def contract_stub(em, fn, contract, suffix=''):
     proto = '%s %s%s(%s)' % (rt, em.fname(fn), suffix, ps or 'void')
     short = fn if len(fn) < 70 else fn[:67] + '...'
     L = [proto + ' {']
+    if suffix == '__rec' and contract.get('rec_variant'):
+        L.insert(0, 'static unsigned __int128 ll2c_rec_measure;')
+        L.append('  __CPROVER_assert((unsigned __int128)(%s) < ll2c_rec_measure, "VARIANT:recursion measure decreases at the recursive call of %s");' % (contract['rec_variant'], short))
     for r in contract.get('requires', []):
         if '__CPROVER_is_fresh' in r: raise Unsupported('is_fresh in a contract stub')
         L.append('  __CPROVER_assert(%s, "CALLSITE:precondition of %s");' % (r, short))
